@@ -55,7 +55,7 @@ def observe(values, seeds, workers, tmp):
     with ThreadPoolExecutor(max_workers=min(16, len(jobs))) as ex:
         outs = list(ex.map(lambda j: session(j[0], j[1], tmp / "hashcache"), jobs))
     # a later session with another seed loads the tasks pickled by the first session
-    later = session(seeds[-1] + 1000, dict(payload, values=[], load=dump), tmp / "hashcache")
+    later = session(987654321, dict(payload, values=[], load=dump), tmp / "hashcache")
     return outs, later["loaded"]
 
 
